@@ -417,6 +417,10 @@ def run_pydriver(lines):
     env = dict(ENV)
     env["MINICONF_PY"] = os.path.join(REPO, "py", "miniconf-mqtt")
     env["PYDRIVER_SYNC_FAST"] = "1"
+    # with SYNC_FAST the driver wakes the requests that are still blocked at the end of a case itself; the client's own
+    # timeout must then never fire on its own (0.2 s did, twice in 14 000 cases of a thorough run on a loaded machine,
+    # and the late response was then appended to an already abandoned request)
+    env.setdefault("PYDRIVER_SYNC_TIMEOUT", "30")
     # always compile the client from the current source: never read or write byte-code caches in /repo
     env["PYTHONDONTWRITEBYTECODE"] = "1"
     env["PYTHONPYCACHEPREFIX"] = os.path.join(WORK, "no-pycache")
